@@ -349,6 +349,32 @@ pub fn size_count_cases(seed: &Seed) -> Vec<(Vec<u8>, Mutation)> {
     size_count_specs(seed).iter().map(|sp| apply_size_count(seed, sp)).collect()
 }
 
+/// Directed pairs of the second kind: a sample-size field together with an offset field (chunk
+/// offset, base data offset, run data offset), both at extremes. Either alone is harmless for
+/// a reader that bounds what it reads by the stream; together they reach arithmetic on
+/// `offset + size` and any buffer sized from "what is left after the offset".
+pub fn size_offset_cases(seed: &Seed) -> Vec<(Vec<u8>, Mutation)> {
+    let sizes: Vec<usize> = seed.fields.iter().enumerate().filter(|(_, f)| f.path.ends_with("sample_size") || f.path.ends_with("entry_size")).map(|(i, _)| i).take(2).collect();
+    let offs: Vec<usize> = seed.fields.iter().enumerate().filter(|(_, f)| f.kind == Kind::Offset).map(|(i, _)| i).take(2).collect();
+    let n = seed.bytes.len() as u64;
+    let mut out = Vec::new();
+    for si in &sizes {
+        for oi in &offs {
+            let (sf, of) = (&seed.fields[*si], &seed.fields[*oi]);
+            let omax = if of.width >= 8 { u64::MAX } else { (1u64 << (8 * of.width)) - 1 };
+            for sv in [0x1_0001u64, 0x7FFF_FFFF, 0xFFFF_FFFF] {
+                for ov in [(omax >> 1) + 1, (omax >> 1) + 1 + n, omax, omax - n.min(omax)] {
+                    let mut b = seed.bytes.clone();
+                    put(&mut b, sf.off, sf.width, sv);
+                    put(&mut b, of.off, of.width, ov);
+                    out.push((b, Mutation { desc: format!("{} @{} := {:#x} and {} @{} := {:#x}", sf.path, sf.off, sv, of.path, of.off, ov), cover: vec![format!("{}+{}|size+offset", strip_digits(&sf.path), strip_digits(&of.path))] }));
+                }
+            }
+        }
+    }
+    out
+}
+
 /// (field index, starts of the enclosing boxes to enlarge innermost first, size value, count value)
 pub type SizeCountSpec = (usize, Vec<usize>, u64, u64);
 
@@ -477,8 +503,8 @@ pub fn mutate_havoc(seed: &Seed, others: &[Seed], rng: &mut Rng) -> (Vec<u8>, Mu
 // amplifier families (C07): a hostile structure replicated k times
 // ---------------------------------------------------------------------------------------
 
-pub const AMPLIFIERS: [&str; 17] = [
-    "many_traks_many_moofs", "many_stsd_esds_overrun", "many_trafs_long_run",
+pub const AMPLIFIERS: [&str; 18] = [
+    "many_containers_with_tiny_child", "many_traks_many_moofs", "many_stsd_esds_overrun", "many_trafs_long_run",
     "zero_size_child_in_moov", "zero_size_child_in_trak", "zero_size_child_in_stbl", "zero_size_child_in_udta", "zero_size_child_in_moof",
     "tiny_boxes_top", "tiny_children_in_moov", "many_traks_overlapping_avcc", "many_traks_overlapping_hvcc", "count_max_no_payload",
     "trun_count_max_no_fields", "nested_overrun_chain", "many_meta_rewind", "emsg_many",
@@ -546,6 +572,26 @@ pub fn amplifier(family: &str, target: usize, rng: &mut Rng) -> Vec<u8> {
                 k += 1;
             }
             return bytes;
+        }
+        "many_containers_with_tiny_child" => {
+            // N small containers (udta) inside moov, each holding one skipped child whose size
+            // field is 2..7 (smaller than its own header): whatever a reader does with such a
+            // child - seek a few bytes back, or read "the rest" - it does it N times, and every
+            // container re-synchronises at its own end, so the walk goes on to the next one
+            let mut k = 0usize;
+            let mut total = 0usize;
+            while total < target {
+                let mut u = BoxT::new(b"udta");
+                let mut pb = PB::new();
+                let s = [4u32, 2, 3, 5, 6, 7][k % 6];
+                pb.u32("size", Kind::BoxSize, s).raw(b"skip").raw(&[0u8; 8]);
+                u.data(pb);
+                total += 24;
+                moov.push(u);
+                k += 1;
+            }
+            top.push(ftyp);
+            top.push(moov);
         }
         "tiny_children_in_moov" => {
             let mut pb = PB::new();
